@@ -17,6 +17,8 @@ from ..srcmodel import Unrecognised, unparse, call_name, kwarg, walk, statements
 from ..layout import sx, slice_bounds, concat_segments, check_partition, strip_ravel
 from ..symx import Translator, decide_equal
 
+from .. import hiddenstate
+
 LEVEL = 'other'
 EXPLANATION = ('layout agreement between the concatenated argument vector, the slices that take it apart, the mixed-Hessian block, the data list and the manual gradient; '
                'sympy comparison of the bookkeeping formulas and of the value carrier; dataflow check that dictionaries are traversed via the sorted key list')
@@ -418,6 +420,8 @@ def run(ctx):
     ctx.guarded('C07-D3', 'fits.py:least_squares@bookkeeping', d3_bookkeeping, ctx, fits)
     ctx.guarded('C07-D4', 'fits.py:least_squares@keyorder', d4_keyorder, ctx, fits)
     ctx.guarded('C07-D6', 'fits.py:least_squares@chisq', d6_chisq, ctx, fits)
+    ctx.rule('C07-D8', 'no hidden state shared between fits')
+    ctx.guarded('C07-D8', 'fits@hidden-state', hiddenstate.check, ctx, 'C07-D8', fits, [q for q, _ in fits.functions() if '.' not in q], 'the fit result')
     ctx.guarded('C07-D7', 'correlators.py:Corr.fit', d7_corrfit, ctx)
 
 
